@@ -64,6 +64,13 @@ pub fn run(ctx: &Ctx, rep: &mut Report) {
                 sys.entries.push(Entry::simple(&c.to_string(), rng.range(0, nid - 1) as i16, rng.range(0, nid - 1) as i16, rng.range(0, 2000) as i16, p));
             }
         }
+        // full-width digits as numeral words that keep their spelling (the class is NUMERIC, the plugin cannot read them:
+        // they take no part in any merge and stay as they are); they occur in the texts when nothing normalises the input
+        for c in "３５７０".chars() {
+            if rng.chance(1, 2) {
+                sys.entries.push(Entry::simple(&c.to_string(), rng.range(0, nid - 1) as i16, rng.range(0, nid - 1) as i16, rng.range(0, 2000) as i16, &pool[1]));
+            }
+        }
         // short katakana words with assorted POS
         for k in ["ア", "カ", "イウ", "ネ", "パリ", "ンッ", "ー", "ァ"] {
             if rng.chance(1, 2) {
@@ -213,6 +220,12 @@ pub fn run(ctx: &Ctx, rep: &mut Report) {
                             // the only licence to touch a lone numeral is to normalise it: the new form is the value
                             // of the token itself (the plugin reads the normalised form of the token), whatever
                             // numerals stand elsewhere in the sentence
+                            if b.norm.chars().any(|c| !"0123456789〇一二三四五六七八九十百千万億兆,.".contains(c)) {
+                                // the plugin reads numerals from these characters only: a token it cannot read is left alone
+                                rep.violation("unmerged_token_changed", "path rewrite", &format!("lone token {:?} (normalised form {:?}, which is not a numeral the plugin can read) is given the normalised form {:?}", w.surface, b.norm, w.norm), "", scen());
+                                failed = true;
+                                break;
+                            }
                             match crate::mon_c15::evaluate(&b.norm) {
                                 crate::mon_c15::Eval::Value(v) => {
                                     rep.count("single_numeral_values_checked", 1);
